@@ -35,7 +35,7 @@ def c15(tier, seed, replay):
                 raise Machinery(f"reference run failed: {x}")
             refsols[t - 1][c - 1] = {"sols": x["obs"][2]["sols"], "stats": x["obs"][2]["stats"]}
         nsols = [[len(refsols[t][c]["sols"]) for c in range(NC)] for t in range(NT)]
-        maxops = 4 if tier == "quick" else 6
+        maxops = 5 if tier == "quick" else 6
         (tmp / "ref.json").write_text(json.dumps({"nt": NT, "nc": NC, "maxops": maxops, "nsols": nsols}))
         (tmp / "refsols.json").write_text(json.dumps(refsols))
         (tmp / "empty.ndjson").write_text("{}\n")
